@@ -10,6 +10,8 @@
 (*   {"ev":"get","class":"complete"|"error"|"partial"}                     *)
 (*   {"ev":"index","entries":["complete"|"pre"|"other"..]}                 *)
 (*   {"ev":"dirscan","blk":..,"tmpblk":bool}                               *)
+(*   {"ev":"indexduring","entries":[..]}   GET /index concurrent with the  *)
+(*                                         PUT (schedules of KeepVolume)   *)
 (***************************************************************************)
 EXTENDS KeepstorePutContract, TraceIO
 
@@ -22,8 +24,9 @@ TraceRestart == IsEvent("restart") /\ Restart
 TraceGet     == IsEvent("get") /\ Get(Ev.class)
 TraceIndex   == IsEvent("index") /\ Index(Ev.entries)
 TraceDirScan == IsEvent("dirscan") /\ DirScan(Ev.blk, Ev.tmpblk)
+TraceIndexDuring == IsEvent("indexduring") /\ IndexDuring(Ev.entries)
 
-TraceNext == TraceReset \/ TraceStart \/ TraceOutcome \/ TraceRestart \/ TraceGet \/ TraceIndex \/ TraceDirScan
+TraceNext == TraceReset \/ TraceStart \/ TraceOutcome \/ TraceRestart \/ TraceGet \/ TraceIndex \/ TraceDirScan \/ TraceIndexDuring
 
 TraceSpec == TraceInit /\ [][TraceNext]_<<pvars, l>>
 =============================================================================
